@@ -16,6 +16,7 @@ type C05Stmt struct {
 	Key  int    `json:"key,omitempty"`
 	Val  int    `json:"val,omitempty"`
 	Col  int    `json:"col,omitempty"`
+	Fail int    `json:"fail,omitempty"` // the n-th storage request of this statement fails cleanly (0 = none); explicit transactions only
 }
 
 type C05Txn struct {
@@ -69,6 +70,9 @@ func init() {
 					st.Kind = "vacuum"
 				default:
 					st.Kind = "version"
+				}
+				if tx.End != "auto" && s > 0 && (st.Kind == "insert" || st.Kind == "update" || st.Kind == "delete") && r.IntN(8) == 0 {
+					st.Fail = 1 + r.IntN(3)
 				}
 				tx.Stmts = append(tx.Stmts, st)
 			}
@@ -142,7 +146,7 @@ func runC05(x *Exec) {
 			return all
 		}
 		leakable := map[string]bool{}
-		leftover, keptWT := false, false
+		leftover, keptWT, stmtFailedDirty := false, false, false
 		for _, tx := range p.Txns {
 			keptWT = keptWT || tx.WriteTime == -1
 		}
@@ -178,7 +182,9 @@ func runC05(x *Exec) {
 					return false
 				}
 				class := "C05-view-differs"
-				if leftover && keptWT {
+				if stmtFailedDirty {
+					class = "C05-view-differs-after-failed-statement-in-transaction"
+				} else if leftover && keptWT {
 					// open finding KF-29: transactions pinned to one write_time, a version left listed next to
 					// its descendants by a failed retire step, and an open or refresh that merges them with
 					// every value tied
@@ -225,6 +231,7 @@ func runC05(x *Exec) {
 					}
 				}
 				var firstWrite time.Time
+				wtUnknown := false
 				touched := map[int]bool{}
 				var inserted []string
 				dirty := false
@@ -235,8 +242,21 @@ func runC05(x *Exec) {
 					var es, en error
 					var ns int64
 					col := p.Cols[st.Col]
+					faultHit := false
 					run := func(sql string, args ...interface{}) {
+						if st.Fail > 0 && explicit && !keptWT {
+							w.Faults = []*FaultSpec{{Client: "c0", Nth: st.Fail, Kind: FaultErr}}
+						}
 						ns, es = c.Exec(strings.ReplaceAll(sql, "{T}", t), args...)
+						if len(w.Faults) > 0 {
+							faultHit = w.Faults[0].Fired > 0 && es != nil && !isConstraint(es)
+							w.Faults = nil
+						}
+						if faultHit {
+							// the statement failed on a storage error: it has no effect, the twin does not run it
+							en = nil
+							return
+						}
 						_, en = c.Exec(strings.ReplaceAll(sql, "{T}", "n"), args...)
 					}
 					switch st.Kind {
@@ -294,6 +314,23 @@ func runC05(x *Exec) {
 									return
 								}
 							}
+						}
+						continue
+					}
+					if faultHit {
+						x.Probe("statement-failed-on-storage-error-inside-transaction")
+						if firstWrite.IsZero() {
+							// the error may have hit xBegin itself (then the next statement begins anew and fixes a later
+							// time) or the statement after a successful xBegin: the transaction's time is one of the two
+							wtUnknown = true
+						}
+						if dirty {
+							// open finding KF-42: mast's Insert splices the key into a node the transaction already
+							// owns before it loads the child it has to split; when that load fails the node keeps the key
+							stmtFailedDirty = true
+						}
+						if !compare("after failed " + sd) {
+							return
 						}
 						continue
 					}
@@ -410,7 +447,7 @@ func runC05(x *Exec) {
 						return
 					}
 					// one write time for everything the transaction wrote
-					if newVers == 1 && len(touched) > 0 {
+					if newVers == 1 && len(touched) > 0 && !wtUnknown {
 						wt, err := lay.WalkVersion(w.S.Bucket, newName)
 						if leaked := wt.UncountedLeak(leakable); err == nil && leaked != nil {
 							// KF-14, invisible form: an entry written by a rolled-back transaction (a deleted row, or
@@ -456,6 +493,10 @@ func runC05(x *Exec) {
 		w.Go(poller, poll)
 		w.Run()
 		w.CheckPanics()
+		const kf42 = "-after-failed-statement-in-transaction"
+		if stmtFailedDirty && x.viol != nil && strings.HasPrefix(x.viol.Class, "C05-") && !strings.HasSuffix(x.viol.Class, kf42) {
+			x.viol.Class += kf42 // whatever shows later in the run comes after the damage (KF-42)
+		}
 		if w.Viol != nil || x.Failed() {
 			return
 		}
